@@ -347,7 +347,8 @@ impl Color3f<Hsl> {
         let x = c * (1.0 - f32::abs(h % 2.0 - 1.0));
         let m = 1.0 * l - c / 2.0;
 
-        let rgb = match (h - 0.5) as i32 {
+        // Sextant of the hue circle; hue 1.0 wraps around to sextant 0
+        let rgb = match (h as i32) % 6 {
             0 => [c, x, 0.0],
             1 => [x, c, 0.0],
             2 => [0.0, c, x],
